@@ -230,50 +230,152 @@ func deviceSteps(fn *ssa.Function) []*ssa.Call {
 	return out
 }
 
-func r16cd(c *an.Ctx) {
-	c.Rule("R16c", "the device state returned by every DoTransition step is used (compared or reported), never discarded", 9)
-	type step struct {
-		fn   *ssa.Function
-		call *ssa.Call
-	}
-	var all []step
-	for _, name := range []string{"FairMQ.Commit", "FairMQ.doConfigure", "FairMQ.doReset", "Direct.Commit"} {
-		fn := c.MustFn(trPkg, name)
-		if fn == nil {
-			continue
+// stepHelpers: same-package functions that (transitively, depth <= 2) perform device steps and return the
+// resulting state as their first (string) result.
+func stepHelpers(c *an.Ctx) map[*ssa.Function]bool {
+	out := map[*ssa.Function]bool{}
+	var fns []*ssa.Function
+	for _, f := range c.ModuleFuncs() {
+		if f.Pkg != nil && strings.HasSuffix(f.Pkg.Pkg.Path(), trPkg) && f.Parent() == nil {
+			fns = append(fns, f)
 		}
-		for i, call := range deviceSteps(fn) {
-			all = append(all, step{fn, call})
-			c.Subject()
-			key := fmt.Sprintf("%s|DoTransition#%d", c.RelName(fn), i+1)
-			used := false
-			if call.Referrers() != nil {
-				for _, r := range *call.Referrers() {
-					switch x := r.(type) {
-					case *ssa.Extract:
-						if x.Index == 0 && x.Referrers() != nil {
-							for _, rr := range *x.Referrers() {
-								if _, dbg := rr.(*ssa.DebugRef); !dbg {
-									used = true
-								}
-							}
-						}
-					case *ssa.Return:
-						used = true
+	}
+	returnsState := func(f *ssa.Function) bool {
+		res := f.Signature.Results()
+		return res.Len() >= 1 && res.At(0).Type().String() == "string"
+	}
+	for round := 0; round < 2; round++ {
+		for _, f := range fns {
+			if out[f] || !returnsState(f) {
+				continue
+			}
+			if len(deviceSteps(f)) > 0 {
+				out[f] = true
+				continue
+			}
+			an.Instrs(f, func(in ssa.Instruction) {
+				if call, ok := in.(*ssa.Call); ok {
+					if cal := call.Call.StaticCallee(); cal != nil && out[cal] {
+						out[f] = true
+					}
+				}
+			})
+		}
+	}
+	return out
+}
+
+type devStep struct {
+	fn     *ssa.Function
+	call   *ssa.Call
+	helper *ssa.Function // nil for a direct DoTransition call
+}
+
+func stepsOf(fn *ssa.Function, helpers map[*ssa.Function]bool) []devStep {
+	var out []devStep
+	an.Instrs(fn, func(in ssa.Instruction) {
+		call, ok := in.(*ssa.Call)
+		if !ok {
+			return
+		}
+		if !call.Call.IsInvoke() && call.Call.StaticCallee() == nil {
+			if f := an.FieldOf(call.Call.Value); f != nil && f.Name() == "DoTransition" {
+				out = append(out, devStep{fn, call, nil})
+			}
+			return
+		}
+		if cal := call.Call.StaticCallee(); cal != nil && helpers[cal] && cal != fn {
+			out = append(out, devStep{fn, call, cal})
+		}
+	})
+	return out
+}
+
+// stateUsed: the state produced by the step is read by something (comparison, conversion, return).
+func stateUsed(st devStep) bool {
+	call := st.call
+	if call.Referrers() == nil {
+		return false
+	}
+	single := call.Type().String() == "string"
+	for _, r := range *call.Referrers() {
+		switch x := r.(type) {
+		case *ssa.DebugRef:
+		case *ssa.Extract:
+			if x.Index == 0 && x.Referrers() != nil {
+				for _, rr := range *x.Referrers() {
+					if _, dbg := rr.(*ssa.DebugRef); !dbg {
+						return true
 					}
 				}
 			}
-			c.Ob(key+"|state-used", call.Pos(), used, "the state returned by this device step is overwritten or dropped before anything reads it: what is reported afterwards is not the device's state")
+		case *ssa.Return:
+			return true
+		default:
+			if single {
+				return true
+			}
+		}
+	}
+	return false
+}
+
+// dstFromParam: for a direct step, the parameters of fn its EventInfo.Dst derives from.
+func dstParams(fn *ssa.Function, call *ssa.Call) map[*ssa.Parameter]bool {
+	out := map[*ssa.Parameter]bool{}
+	dst := eventInfoField(call, 2)
+	if dst == nil {
+		return out
+	}
+	for _, l := range an.BackSlice(dst, an.SliceOpts{}) {
+		if p, ok := l.Val.(*ssa.Parameter); ok && l.Kind == "param" && p.Parent() == fn {
+			out[p] = true
+		}
+	}
+	return out
+}
+
+func r16cd(c *an.Ctx) {
+	c.Rule("R16c", "the device state returned by every device step (DoTransition call or helper performing steps) is used, never discarded", 9)
+	helpers := stepHelpers(c)
+	var fns []*ssa.Function
+	for _, f := range c.ModuleFuncs() {
+		if f.Pkg != nil && strings.HasSuffix(f.Pkg.Pkg.Path(), trPkg) && f.Parent() == nil {
+			fns = append(fns, f)
+		}
+	}
+	var all []devStep
+	for _, fn := range fns {
+		steps := stepsOf(fn, helpers)
+		if len(steps) == 0 {
+			continue
+		}
+		c.Mark(fn)
+		for i, st := range steps {
+			all = append(all, st)
+			c.Subject()
+			kind := "DoTransition"
+			if st.helper != nil {
+				kind = st.helper.Name()
+			}
+			key := fmt.Sprintf("%s|%s#%d", c.RelName(fn), kind, i+1)
+			c.Ob(key+"|state-used", st.call.Pos(), stateUsed(st), "the state returned by this device step is overwritten or dropped before anything reads it: what is reported afterwards is not the device's state")
 		}
 	}
 	c.Rule("R16d", "a rollback step (a later step whose destination is the transition's source state) is terminal: no further device step is reachable after it", 4)
+	// the transition's source state: parameter `src` of functions with the Transitioner.Commit signature (evt, src, dst, args)
+	srcOf := func(fn *ssa.Function) *ssa.Parameter {
+		if len(fn.Params) == 5 && fn.Params[2].Type().String() == "string" && fn.Params[3].Type().String() == "string" && strings.HasPrefix(fn.Params[4].Type().String(), "map[") {
+			return fn.Params[2]
+		}
+		return nil
+	}
 	for _, s := range all {
-		// rollback: EventInfo.Dst derives from parameter `src` (3rd param, index 2 after receiver → name based on position)
 		fn := s.fn
-		if len(fn.Params) < 4 {
+		src := srcOf(fn)
+		if src == nil {
 			continue
 		}
-		src := fn.Params[2]
 		isFirst := true
 		for _, o := range all {
 			if o.fn == fn && o.call != s.call && an.Dominates(o.call, s.call) {
@@ -283,14 +385,26 @@ func r16cd(c *an.Ctx) {
 		if isFirst {
 			continue
 		}
-		dst := eventInfoField(s.call, 2)
-		if dst == nil {
-			continue
-		}
 		fromSrc := false
-		for _, l := range an.BackSlice(dst, an.SliceOpts{}) {
-			if l.Kind == "param" && l.Val == ssa.Value(src) {
-				fromSrc = true
+		if s.helper == nil {
+			fromSrc = dstParams(fn, s.call)[src]
+		} else {
+			// which parameters of the helper flow into the Dst of its steps; is the matching argument derived from src?
+			for _, hs := range stepsOf(s.helper, helpers) {
+				if hs.helper != nil {
+					continue
+				}
+				for p := range dstParams(s.helper, hs.call) {
+					for i, hp := range s.helper.Params {
+						if hp == p && i < len(s.call.Call.Args) {
+							for _, l := range an.BackSlice(s.call.Call.Args[i], an.SliceOpts{}) {
+								if l.Kind == "param" && l.Val == ssa.Value(src) {
+									fromSrc = true
+								}
+							}
+						}
+					}
+				}
 			}
 		}
 		if !fromSrc {
@@ -303,7 +417,16 @@ func r16cd(c *an.Ctx) {
 				next = o.call
 			}
 		}
-		key := fmt.Sprintf("%s|rollback@%s", c.RelName(fn), rollbackName(s.call))
+		name := rollbackName(s.call)
+		if s.helper != nil {
+			name = "via-" + s.helper.Name()
+			for _, a := range s.call.Call.Args {
+				if str, ok := an.ConstString(a); ok {
+					name += "-" + strings.ReplaceAll(str, " ", "_")
+				}
+			}
+		}
+		key := fmt.Sprintf("%s|rollback@%s", c.RelName(fn), name)
 		msg := "after rolling the device back to the source state the function must report that state"
 		if next != nil {
 			msg += fmt.Sprintf("; instead the forward step at %s is attempted on the rolled-back device and its result replaces the rollback's", c.PosStr(next.Pos()))
